@@ -176,7 +176,9 @@ Section Sound.
     - destruct (eval ext op ρ e); inversion H; reflexivity.
     - destruct (eval ext op ρ e); inversion H; reflexivity.
     - destruct (eval_kvs ext op ρ kvs); [|inversion H]. destruct npos; [|inversion H].
-      destruct (encode_cdict a (g_bits G) (zeros (g_len G))); inversion H; reflexivity.
+      destruct (lookup "opcode" a) as [[v| | | |]|]; try (inversion H; fail).
+      destruct (init_len v); [|inversion H].
+      destruct (encode_cdict a (c_bits K) (zeros a0)); inversion H; reflexivity.
     - inversion H.
   Qed.
 
@@ -190,7 +192,9 @@ Section Sound.
     - destruct (eval ext op ρ e); inversion H; subst; reflexivity.
     - destruct (eval ext op ρ e); inversion H; subst; reflexivity.
     - destruct (eval_kvs ext op ρ kvs); [|inversion H]. destruct npos; [|inversion H].
-      destruct (encode_cdict a (g_bits G) (zeros (g_len G))); inversion H; subst; reflexivity.
+      destruct (lookup "opcode" a) as [[v| | | |]|]; try (inversion H; fail).
+      destruct (init_len v); [|inversion H].
+      destruct (encode_cdict a (c_bits K) (zeros a0)); inversion H; subst; reflexivity.
   Qed.
 
   Lemma run_env body : forall G ρ c G' ρ' c' x,
@@ -245,7 +249,39 @@ Section Sound.
     sh_pre s ++ (([], SInit (sh_eo s) (sh_ei s)) :: sh_mid s) ++ [([], SBuild 0 (sh_kvs s))].
 
   Definition shape_ok (s : shape) : bool :=
-    forallb plain (sh_pre s) && forallb plain (sh_mid s).
+    forallb plain (sh_pre s) && forallb plain (sh_mid s)
+    && match lookup "opcode" (sh_kvs s) with Some EOpValue => true | _ => false end.
+
+  Lemma eval_kvs_opcode ρ kvs d : eval_kvs ext op ρ kvs = Ok d ->
+    lookup "opcode" kvs = Some EOpValue -> lookup "opcode" d = Some (CInt (op_value op)).
+  Proof.
+    revert d; induction kvs as [|[k e] kvs IH]; intros d H Hl; [discriminate|].
+    cbn [eval_kvs] in H. destruct (eval ext op ρ e) as [v|] eqn:Ev; [|discriminate].
+    destruct (eval_kvs ext op ρ kvs) as [d1|] eqn:Ed; [|discriminate]. inversion H; subst d.
+    cbn [lookup] in *. destruct (String.eqb "opcode" k).
+    - inversion Hl; subst e. rewrite eval_eq in Ev. now inversion Ev.
+    - now apply IH.
+  Qed.
+
+  (* no statement reads or writes the class-level state any more *)
+  Lemma run_G_any body : forall G st G' r, run ext op K init_len G st body = (G', r) -> G' = G.
+  Proof.
+    induction body as [|[g s] body IH]; intros G st G' r H; cbn [run] in H; [now inversion H|].
+    destruct (guard_holds (fst st) g); [|eapply IH; eassumption].
+    destruct (exec ext op K init_len G st s) as [G1 [st1|e]] eqn:E.
+    - assert (G1 = G).
+      { destruct st as [ρ c]. destruct s; cbn [exec] in E;
+          repeat match type of E with
+                 | (match ?x with _ => _ end) = _ => destruct x
+                 end; inversion E; reflexivity. }
+      subst G1. eapply IH; eassumption.
+    - assert (G1 = G).
+      { destruct st as [ρ c]. destruct s; cbn [exec] in E;
+          repeat match type of E with
+                 | (match ?x with _ => _ end) = _ => destruct x
+                 end; inversion E; reflexivity. }
+      inversion H; subst. reflexivity.
+  Qed.
 
   Theorem ctor_shape_sound (s : shape) G ρ0 G' ρ' cm n :
     shape_ok s = true -> init_len (op_value op) = Ok n ->
@@ -254,33 +290,30 @@ Section Sound.
       eval_kvs ext op ρb (sh_kvs s) = Ok d /\
       (forall x, ~ In x (assigned (sh_pre s ++ sh_mid s)) -> lookup x ρb = lookup x ρ0) /\
       cdb cm = Some r /\ encode_cdict d (c_bits K) (zeros n) = Ok r /\
-      G' = mkG (c_bits K) n.
+      G' = G.
   Proof.
-    intros Hok Hn Hrun. unfold shape_ok in Hok. apply andb_prop in Hok as [Hpre Hmid].
-    assert (Hpre' : forallb (fun gs => negb (is_init (snd gs))) (sh_pre s) = true).
-    { rewrite forallb_forall in *. intros gs Hin. specialize (Hpre gs Hin). unfold plain in Hpre.
-      apply andb_prop in Hpre as [Hp _]. apply andb_prop in Hp as [Hp _]. exact Hp. }
-    assert (Hmid' : forallb (fun gs => negb (is_init (snd gs))) (sh_mid s) = true).
-    { rewrite forallb_forall in *. intros gs Hin. specialize (Hmid gs Hin). unfold plain in Hmid.
-      apply andb_prop in Hmid as [Hp _]. apply andb_prop in Hp as [Hp _]. exact Hp. }
+    intros Hok Hn Hrun. pose proof (run_G_any _ _ _ _ _ Hrun) as HGG. subst G'.
+    unfold shape_ok in Hok. apply andb_prop in Hok as [Hok Hop]. apply andb_prop in Hok as [Hpre Hmid].
+    assert (Hop' : lookup "opcode" (sh_kvs s) = Some EOpValue).
+    { destruct (lookup "opcode" (sh_kvs s)) as [e|]; [|discriminate]. destruct e; try discriminate. reflexivity. }
     unfold shape_body in Hrun. rewrite run_app in Hrun.
     destruct (run ext op K init_len G (ρ0, cmd0) (sh_pre s)) as [G1 [[ρ1 c1]|e]] eqn:E1; [|inversion Hrun].
-    pose proof (run_G _ _ _ _ _ E1 Hpre') as HG1. subst G1.
+    pose proof (run_G_any _ _ _ _ _ E1) as HG1. subst G1.
     cbn [app run guard_holds forallb fst] in Hrun.
     destruct (exec ext op K init_len G (ρ1, c1) (SInit (sh_eo s) (sh_ei s))) as [G2 [[ρ2 c2]|e]] eqn:E2; [|inversion Hrun].
-    assert (HG2 : G2 = mkG (c_bits K) n /\ ρ2 = ρ1).
+    assert (HG2 : G2 = G /\ ρ2 = ρ1).
     { cbn [exec] in E2. destruct (eval ext op ρ1 (sh_eo s)); [|inversion E2].
       destruct (eval ext op ρ1 (sh_ei s)); [|inversion E2]. rewrite Hn in E2.
       destruct a; destruct a0; inversion E2; auto. }
     destruct HG2 as [-> ->].
     rewrite run_app in Hrun.
-    destruct (run ext op K init_len (mkG (c_bits K) n) (ρ1, c2) (sh_mid s)) as [G3 [[ρ3 c3]|e]] eqn:E3; [|inversion Hrun].
-    pose proof (run_G _ _ _ _ _ E3 Hmid') as HG3. subst G3.
+    destruct (run ext op K init_len G (ρ1, c2) (sh_mid s)) as [G3 [[ρ3 c3]|e]] eqn:E3; [|inversion Hrun].
+    pose proof (run_G_any _ _ _ _ _ E3) as HG3. subst G3.
     cbn [run guard_holds forallb fst exec] in Hrun.
     destruct (eval_kvs ext op ρ3 (sh_kvs s)) as [d|e] eqn:Ek; [|inversion Hrun].
-    cbn [g_bits g_len] in Hrun.
+    rewrite (eval_kvs_opcode _ _ _ Ek Hop'), Hn in Hrun.
     destruct (encode_cdict d (c_bits K) (zeros n)) as [r|e] eqn:Ee; [|inversion Hrun].
-    injection Hrun as HG' Hρ' Hcm. subst cm G'. exists ρ3, d, r. repeat split; try reflexivity; try assumption.
+    injection Hrun as Hρ' Hcm. subst cm. exists ρ3, d, r. repeat split; try reflexivity; try assumption.
     intros x Hx.
     assert (Hx1 : ~ In x (assigned (sh_pre s))).
     { intros Hi. apply Hx. unfold assigned. rewrite flat_map_app. apply in_or_app. now left. }
